@@ -145,3 +145,8 @@ func Tier() int {
 func SpawnDeferred(on bool) {}
 func Pending() int         { return 0 }
 func RunPending(k int) bool { return false }
+
+// Process runs f; under the engine Crash() kills it without running deferred calls and Process returns true.
+// Natively f simply runs to completion (crash points cannot be replayed natively).
+func Process(f func()) bool { f(); return false }
+func Crash()                {}
